@@ -313,7 +313,7 @@ def _times_leaf(leaf, li, nleaves, nfr, Ts, T, Fc, dt, taus, slew, Ds, pre, tag,
     r, _ = core.check(pre + leaf.side + [z3.Or(*dis)], timeout_ms=60000)
     recs.append(q(tag + ':overwrite->slew', r))
     if r == 'sat':
-        recs.append(cex('C16:overwrite_times', 'overwriting start times does not space frames by exactly t_slew', pl, name=tag + ':overwrite->slew'))
+        recs.append(cex('C16:overwrite_times', 'overwriting start times does not space frames by exactly t_slew', dict(pl, t_slew=core.model_vals(_, ['t_slew']).get('t_slew')), name=tag + ':overwrite->slew'))
     dis = [lift(natural[m - 1]) != taus[m].t - (taus[m - 1].t + Ts[m - 1] * dtv) for m in range(1, nfr)]
     if cons is not None:
         if cons.data.shape != (off[nfr], Fc) or len(cons.ts) != off[nfr]:
@@ -416,10 +416,15 @@ def replay_times(p):
     bad, msg = _replay_times(p, p.get('tau0', 0.0))
     if not bad:
         bad, msg = _replay_times(p, 1234.5)
+    # slew times: an ordinary one, the one the solver used, and the boundary value 0 (frames back to back)
+    for sl in (p.get('t_slew'), 0.0):
+        if not bad and sl is not None and abs(sl) < 1e6:
+            bad, msg = _replay_times(p, 1234.5, slew=float(sl))
+            msg = f"t_slew={sl!r}: {msg}"
     return bad, msg
 
 
-def _replay_times(p, tau0):
+def _replay_times(p, tau0, slew=7.5):
     import setigen as stg
     nfr = p['nfr']
     Ts = list(p['T']) if isinstance(p['T'], (list, tuple)) else [p['T']] * nfr
@@ -447,13 +452,13 @@ def _replay_times(p, tau0):
         fr.t_start = t0s[m]
     if not np.allclose(stg.Cadence(late).slew_times, [t0s[m] - (t0s[m - 1] + 4.0 * Ts[m - 1]) for m in range(1, nfr)]):
         msgs.append(f'natural slew times of frames whose start time was reassigned: {stg.Cadence(late).slew_times}')
-    keep = mk(frames, t_slew=7.5)
+    keep = mk(frames, t_slew=slew)
     if [fr.t_start for fr in frames] != t0s:
         msgs.append(f'a cadence built with a slew time but without t_overwrite moved the start times to {[fr.t_start for fr in frames]}')
-    cad = mk(frames, t_slew=7.5, t_overwrite=True)
-    if not np.allclose(cad.slew_times, 7.5):
+    cad = mk(frames, t_slew=slew, t_overwrite=True)
+    if not np.allclose(cad.slew_times, slew, rtol=0, atol=1e-9):
         msgs.append(f'slew times after overwrite {cad.slew_times}')
-    want = [frames[0].t_start + 4.0 * off[m] + 7.5 * m for m in range(nfr)]
+    want = [frames[0].t_start + 4.0 * off[m] + slew * m for m in range(nfr)]
     if not np.allclose([fr.t_start for fr in frames], want, rtol=1e-12):
         msgs.append(f'start times after overwrite {[fr.t_start for fr in frames]}, expected {want} (frame lengths {Ts})')
     if cad.obs_range is None or not np.isclose(cad.obs_range, want[-1] + 4.0 * Ts[-1] - want[0]):
